@@ -354,6 +354,15 @@ pub fn plan(tier: Tier) -> Plan {
             }
         }));
     }
+    p.units.push(unit("twin-wide-nodes-under-tiny-caches", "twins".into(), move |st, rep| {
+        for (_, kvs) in twin_family() {
+            st.nontrivial += 1;
+            for g in crate::front::GEOMS {
+                let probes: Vec<Key> = (0..=255u8).flat_map(|b| [vec![b'a', b], vec![b'c', b], vec![b'x', b], vec![b'c', b, b'q']]).collect();
+                do_probes(&kvs, g, &probes, st, rep);
+            }
+        }
+    }));
     p.must_be_nonzero = vec!["fanout_cases".into(), "label_cases".into()];
     p
 }
